@@ -165,8 +165,76 @@ pub fn expansion_count(p: &str) -> Option<u64> {
 
 fn corrupt(rng: &mut Rng, doc: &mut Vec<u8>, other: &[u8], log: &mut Vec<String>) {
     let n = doc.len();
-    let kind = rng.below(16);
+    let kind = rng.below(20);
     let name = match kind {
+        18 | 19 => {
+            // blanks that are not the ASCII space/tab: VT, FF, CR, the ISO-8859-1
+            // NEL and NBSP bytes (white space when a byte is read as a char),
+            // information separators, Unicode spaces - alone, after an existing
+            // blank, or as the whole argument of a line ("@cmd <blanks>")
+            let pool: [&[u8]; 14] = [
+                b"\x0b", b"\x0c", b"\r", b"\x85", b"\xa0", b"\x1c", b"\x1f", b" ", b"\t",
+                "\u{a0}".as_bytes(), "\u{2028}".as_bytes(), "\u{3000}".as_bytes(), "\u{1680}".as_bytes(), "\u{2003}".as_bytes(),
+            ];
+            let mut ins: Vec<u8> = Vec::new();
+            for _ in 0..rng.urange(1, 3) {
+                let piece: &[u8] = *rng.pick(&pool[..]);
+                ins.extend_from_slice(piece);
+            }
+            let blanks: Vec<usize> = (0..n).filter(|&i| doc[i] == b' ' || doc[i] == b'\t').collect();
+            match rng.below(3) {
+                0 if !blanks.is_empty() => {
+                    // right after an existing blank
+                    let at = *rng.pick(&blanks) + 1;
+                    doc.splice(at..at, ins);
+                }
+                1 if !blanks.is_empty() => {
+                    // everything between a blank and the end of its line becomes odd blanks
+                    let at = *rng.pick(&blanks) + 1;
+                    let end = doc[at..].iter().position(|&c| c == b'\n').map(|i| at + i).unwrap_or(n);
+                    doc.splice(at..end, ins);
+                }
+                _ => {
+                    let mut at = rng.urange(0, n);
+                    while at < n && (doc[at] & 0xc0) == 0x80 {
+                        at += 1;
+                    }
+                    doc.splice(at..at, ins);
+                }
+            }
+            "odd_blank"
+        }
+        16 | 17 => {
+            // grow a line / token with ASCII filler so that a multi-byte character
+            // straddles a size boundary (counted from the start of the line, of the
+            // document, or of the insertion point): fixed-size buffers, length
+            // guards and byte-offset slices live at such boundaries
+            let mut at = rng.urange(0, n);
+            while at < n && (doc[at] & 0xc0) == 0x80 {
+                at += 1;
+            }
+            let line_start = doc[..at].iter().rposition(|&c| c == b'\n').map(|i| i + 1).unwrap_or(0);
+            let ref_off = match rng.below(3) {
+                0 => at - line_start,
+                1 => at,
+                _ => 0,
+            };
+            let bounds: [usize; 14] = [4, 7, 8, 15, 16, 24, 32, 64, 128, 255, 256, 1024, 4096, 8192];
+            let cands: Vec<usize> = bounds.iter().cloned().filter(|&b| b > ref_off).collect();
+            let b = if cands.is_empty() { ref_off + 16 } else { *rng.pick(&cands[..cands.len().min(8)]) };
+            let mb: &str = rng.pick_str(&["\u{e9}", "\u{fc}", "\u{20ac}", "\u{3042}", "\u{1f600}", "\u{10ffff}"]);
+            // the character starts j bytes before the boundary (j = 0: right at it)
+            let j = rng.urange(0, mb.len() - 1).min(b - ref_off);
+            let fill_len = b - ref_off - j;
+            let filler = *rng.pick(b"a1x-._A");
+            let mut ins: Vec<u8> = std::iter::repeat(filler).take(fill_len).collect();
+            ins.extend_from_slice(mb.as_bytes());
+            if rng.chance(1, 2) {
+                ins.extend(std::iter::repeat(filler).take(rng.urange(0, 20)));
+            }
+            doc.splice(at..at, ins);
+            "straddle_boundary"
+        }
         14 | 15 => {
             // exotic but valid UTF-8: Unicode digits and numerics that are not
             // ASCII digits, characters whose case mapping changes length,
@@ -1364,6 +1432,30 @@ impl Property for C17 {
                     }
                     alg_names.push(chars.into_iter().collect());
                 }
+                if rng.chance(1, 2) {
+                    // a name grown with filler so that a multi-byte character sits on
+                    // (or straddles) byte offset k, for small k and around powers of two
+                    let base = rng.pick_str(&["SHA1", "MD5", "sha512", "RMD160", "BLAKE2s", "Size", "", "Pr"]);
+                    let k = match rng.below(4) {
+                        0 => rng.urange(0, 40),
+                        1 => *rng.pick(&[7usize, 8, 15, 16, 17, 31, 32, 33, 63, 64, 65]),
+                        2 => *rng.pick(&[127usize, 128, 129, 255, 256, 257, 1023, 1024, 4095, 4096]),
+                        _ => rng.urange(0, 20),
+                    };
+                    let mb: &str = rng.pick_str(&["\u{e9}", "\u{fc}", "\u{20ac}", "\u{3042}", "\u{1f600}"]);
+                    let j = rng.urange(0, mb.len() - 1).min(k);
+                    let mut name = String::from(base);
+                    let filler = *rng.pick(&['-', 'a', 'S', '5', '_']);
+                    while name.len() + j < k {
+                        name.push(filler);
+                    }
+                    name.truncate(k - j.min(k)); // ASCII only so far: any cut is a boundary
+                    name.push_str(mb);
+                    for _ in 0..rng.urange(0, 12) {
+                        name.push(filler);
+                    }
+                    alg_names.push(name);
+                }
                 Sc::C {
                     distinfo: Bytes(distinfo),
                     files,
@@ -1786,6 +1878,8 @@ fn count_corruption(ctx: &mut Ctx, name: &str) {
         "swap_bytes" => "swap_bytes",
         "byte_set" => "byte_set",
         "insert_unicode" => "insert_unicode",
+        "straddle_boundary" => "straddle_boundary",
+        "odd_blank" => "odd_blank",
         "empty_metadata_file" => "empty_metadata_file",
         "garbage_metadata_file" => "garbage_metadata_file",
         _ => "other_corruption",
